@@ -180,6 +180,7 @@ from .config import (
 )
 from .credentials import match_partial_url, match_urls
 from .errors import GitProtocolError, HangupException, NotGitRepository, SendPackError
+from .file import FileLocked
 from .object_format import DEFAULT_OBJECT_FORMAT
 from .object_store import GraphWalker
 from .objects import ObjectID, valid_hexsha
@@ -3059,19 +3060,22 @@ class LocalGitClient(GitClient):
 
             ref_status: dict[bytes, str | None] = {}
 
+            def current_value(refname: Ref) -> ObjectID:
+                try:
+                    return target.refs[refname]
+                except KeyError:
+                    return ZERO_SHA
+
             if atomic:
                 # Validate all ref updates first before applying any
                 for refname, new_sha1 in new_refs.items():
                     old_sha1 = old_refs.get(refname, ZERO_SHA)
-                    if new_sha1 != ZERO_SHA:
-                        current = target.refs.get_peeled(refname)
-                        if current is not None and current != old_sha1:
+                    if current_value(refname) != old_sha1:
+                        if new_sha1 != ZERO_SHA:
                             ref_status[refname] = (
                                 f"unable to set {refname!r} to {new_sha1!r}"
                             )
-                    else:
-                        current = target.refs.get_peeled(refname)
-                        if current is not None and current != old_sha1:
+                        else:
                             ref_status[refname] = "unable to remove"
                 if ref_status:
                     # Atomic push: if any ref would fail, fail them all
@@ -3082,17 +3086,45 @@ class LocalGitClient(GitClient):
                         _to_optional_dict(new_refs), ref_status=ref_status
                     )
 
+            applied: list[tuple[Ref, ObjectID, ObjectID]] = []
             for refname, new_sha1 in new_refs.items():
                 old_sha1 = old_refs.get(refname, ZERO_SHA)
+                try:
+                    if new_sha1 != ZERO_SHA:
+                        ok = target.refs.set_if_equals(refname, old_sha1, new_sha1)
+                    else:
+                        ok = target.refs.remove_if_equals(refname, old_sha1)
+                except FileLocked:
+                    # Another writer holds the lock on this ref right now.
+                    ok = False
+                if ok:
+                    applied.append((refname, old_sha1, new_sha1))
+                    continue
                 if new_sha1 != ZERO_SHA:
-                    if not target.refs.set_if_equals(refname, old_sha1, new_sha1):
-                        msg = f"unable to set {refname!r} to {new_sha1!r}"
-                        _progress(msg.encode())
-                        ref_status[refname] = msg
+                    msg = f"unable to set {refname!r} to {new_sha1!r}"
                 else:
-                    if not target.refs.remove_if_equals(refname, old_sha1):
-                        _progress(f"unable to remove {refname!r}".encode())
-                        ref_status[refname] = "unable to remove"
+                    msg = f"unable to remove {refname!r}"
+                _progress(msg.encode())
+                ref_status[refname] = (
+                    msg if new_sha1 != ZERO_SHA else "unable to remove"
+                )
+                if atomic:
+                    break
+
+            if atomic and ref_status:
+                # A racing writer got in after the validation above: undo
+                # what was applied so that the push stays all-or-nothing.
+                for refname, old_sha1, new_sha1 in reversed(applied):
+                    with suppress(FileLocked, OSError):
+                        if old_sha1 == ZERO_SHA:
+                            target.refs.remove_if_equals(refname, new_sha1)
+                        elif new_sha1 == ZERO_SHA:
+                            target.refs.add_if_new(refname, old_sha1)
+                        else:
+                            target.refs.set_if_equals(refname, new_sha1, old_sha1)
+                for refname in new_refs:
+                    if refname not in ref_status:
+                        ref_status[refname] = "atomic push failed"
 
         return SendPackResult(_to_optional_dict(new_refs), ref_status=ref_status)
 
